@@ -1,11 +1,255 @@
-import S3V.Model.FsStoreAbs
+import S3V.Thm.FsStoreRefine
 /-!
 # C18 — the file-system backend behaves like an in-memory object store (property theorems only)
+
+Objects: `FsStore.step` is the operation-level model of `crates/s3s-fs/src/s3.rs` (tied to the real `FileSystem` by
+replaying whole histories, component `fs`), `StoreSpec.step` the abstract store (S3 semantics, RFC 9110 ranges),
+`FsStore.abs` the abstraction (files ↦ objects, side files ↦ metadata / checksums, upload files ↦ uploads) and
+`FsStore.Inv` the invariant of reachable states. The hash functions `H` (MD5 for ETags, CRC/SHA for checksums) and
+the size `dl` the OS reports for a directory are parameters: every theorem holds for all of them.
+
+Shape of every per-operation theorem: for a state satisfying `Inv` and a request satisfying the operation's
+predicate, the model answers exactly as the store answers from `abs s`, the abstraction of the new state is the
+store's new state, and `Inv` is preserved. The predicates (`PutOk`, `GetOk`, … in `S3V/Thm/FsStore*.lean`) are
+explicit and decidable; each conjunct that is not about "names both sides accept or both refuse" excludes one
+recorded deviation of the backend (finding class named in the predicate's doc comment, witness history in
+`corpus/fs.txt`, kernel-checked counterexample in `S3V/Findings/C18.lean`). `_partial` marks theorems whose
+predicate excludes a deviation; the unrestricted statement is `C18_full`.
+No bound on sizes, lengths, number of objects or history length appears in any statement.
 -/
 namespace S3V.C18
 open S3V S3V.FsStore S3V.StoreSpec
 
-/-- the abstraction of the empty directory is the empty store -/
-theorem C18_abs_empty : abs {} = {} := rfl
+/-- the answers of the backend and of the store on a history started from nothing -/
+def C18_full : Prop :=
+  ∀ (H : Hashes) (dl : Nat) (ops : List Op), (run H dl {} ops).2 = (StoreSpec.run H {} ops).2
+
+/-- the empty directory satisfies the invariant and stands for the empty store -/
+theorem C18_initial : Inv {} ∧ abs {} = {} := ⟨inv_empty, rfl⟩
+
+/-! ## buckets -/
+
+/-- create_bucket: full (any name both sides accept or both refuse) -/
+theorem C18_create_bucket_refines (H : Hashes) (dl : Nat) {s : State} (hi : Inv s) {b : Bytes} (hg : NameOk b) :
+    (step H dl s (.createBucket b)).2 = (StoreSpec.step H (abs s) (.createBucket b)).2 ∧
+    abs (step H dl s (.createBucket b)).1 = (StoreSpec.step H (abs s) (.createBucket b)).1 ∧
+    Inv (step H dl s (.createBucket b)).1 := createBucket_refines H dl hi hg
+
+/-- delete_bucket: deleted buckets are gone; partial — a bucket that still holds objects is excluded
+    (fs:delete-nonempty-bucket) -/
+theorem C18_delete_bucket_refines_partial (H : Hashes) (dl : Nat) {s : State} (hi : Inv s) {b : Bytes}
+    (hg : DeleteBucketOk s b) :
+    (step H dl s (.deleteBucket b)).2 = (StoreSpec.step H (abs s) (.deleteBucket b)).2 ∧
+    abs (step H dl s (.deleteBucket b)).1 = (StoreSpec.step H (abs s) (.deleteBucket b)).1 ∧
+    Inv (step H dl s (.deleteBucket b)).1 := deleteBucket_refines H dl hi hg
+
+/-- head_bucket: full -/
+theorem C18_head_bucket_refines (H : Hashes) (dl : Nat) {s : State} (hi : Inv s) {b : Bytes} (hg : NameOk b) :
+    (step H dl s (.headBucket b)).2 = (StoreSpec.step H (abs s) (.headBucket b)).2 ∧
+    abs (step H dl s (.headBucket b)).1 = (StoreSpec.step H (abs s) (.headBucket b)).1 ∧
+    Inv (step H dl s (.headBucket b)).1 := headBucket_refines H dl hi hg
+
+/-- get_bucket_location: full -/
+theorem C18_get_bucket_location_refines (H : Hashes) (dl : Nat) {s : State} (hi : Inv s) {b : Bytes} (hg : NameOk b) :
+    (step H dl s (.getBucketLocation b)).2 = (StoreSpec.step H (abs s) (.getBucketLocation b)).2 ∧
+    abs (step H dl s (.getBucketLocation b)).1 = (StoreSpec.step H (abs s) (.getBucketLocation b)).1 ∧
+    Inv (step H dl s (.getBucketLocation b)).1 := getBucketLocation_refines H dl hi hg
+
+/-- list_buckets: full (names as a sorted set) -/
+theorem C18_list_buckets_refines (H : Hashes) (dl : Nat) {s : State} (hi : Inv s) :
+    (step H dl s .listBuckets).2 = (StoreSpec.step H (abs s) .listBuckets).2 ∧
+    abs (step H dl s .listBuckets).1 = (StoreSpec.step H (abs s) .listBuckets).1 ∧
+    Inv (step H dl s .listBuckets).1 := listBuckets_refines H dl hi
+
+/-! ## objects -/
+
+/-- put_object: the written content, metadata and checksums become the object, the answer carries the MD5 ETag; bad
+    digests and refused names are answered alike. Partial — excluded: missing bucket (fs:put-into-missing-bucket),
+    non-canonical / directory keys (fs:key-normalised, fs:directory-key), a path that is not free
+    (prefix-freedom, fs:leftover-directory), over-long side-file names (fs:long-key-internal-error), a request
+    without metadata over an old metadata file (fs:stale-metadata-after-overwrite, fs:metadata-survives-delete) -/
+theorem C18_put_refines_partial (H : Hashes) (dl : Nat) {s : State} (hi : Inv s) {b k c : Bytes} {md : Option Meta}
+    {cks : Cks} {clen : Option Int} (hg : PutOk s b k md) :
+    (step H dl s (.putObject b k c md cks clen)).2 = (StoreSpec.step H (abs s) (.putObject b k c md cks clen)).2 ∧
+    abs (step H dl s (.putObject b k c md cks clen)).1 = (StoreSpec.step H (abs s) (.putObject b k c md cks clen)).1 ∧
+    Inv (step H dl s (.putObject b k c md cks clen)).1 := put_refines H dl hi hg
+
+/-- get_object, whole and ranged: the most recently written content, metadata, MD5 ETag; for a range the RFC 9110
+    slice (`rfcInterval`) with `Content-Range` and `Content-Length`, `InvalidRange` when unsatisfiable. Partial —
+    excluded: missing bucket (fs:missing-bucket-reported-as-missing-key), a suffix range longer than the object
+    (fs:suffix-range-longer-than-object, fs:suffix-range-huge-panics), leftover directories, non-canonical keys -/
+theorem C18_get_refines_partial (H : Hashes) (dl : Nat) {s : State} (hi : Inv s) {b k : Bytes} {range : Option Range}
+    (hg : GetOk s b k range) :
+    (step H dl s (.getObject b k range)).2 = (StoreSpec.step H (abs s) (.getObject b k range)).2 ∧
+    abs (step H dl s (.getObject b k range)).1 = (StoreSpec.step H (abs s) (.getObject b k range)).1 ∧
+    Inv (step H dl s (.getObject b k range)).1 := get_refines H dl hi hg
+
+/-- range_slice: what the store (hence, by `C18_get_refines_partial`, the backend) answers to a satisfiable range:
+    exactly the bytes `[st, en)` of the object, `Content-Length = en - st`, `Content-Range: bytes st-(en-1)/len`,
+    and with a `Content-Range` present the HTTP layer answers 206 -/
+theorem C18_range_slice (H : Hashes) (o : Obj) (r : Range) (st en : Nat)
+    (h : DtoSpec.rfcInterval (toByteRange r) o.content.length = some (st, en)) (hne : st < en) :
+    readObj H o (some r) =
+      .get ((o.content.drop st).take (en - st)) (en - st) (some (fmtContentRange st (en - 1) o.content.length))
+        (some (etagOf H o.content)) o.md o.cks ∧
+    status (readObj H o (some r)) = 206 := by
+  have hge : ¬ st ≥ en := by omega
+  simp [readObj, h, hge, slice, status]
+
+/-- `Range::check` computes the RFC 9110 interval whenever it answers, and refuses exactly the ranges RFC 9110
+    calls unsatisfiable or that select no byte (suffix ranges longer than the object: see the partial get theorem) -/
+theorem C18_range_check (r : Range) (len : Nat) (h : ∀ n, r = .suffix n → n ≤ len) :
+    (rangeCheck r len = none ∧
+      (DtoSpec.rfcInterval (toByteRange r) len = none ∨
+        ∃ st en, DtoSpec.rfcInterval (toByteRange r) len = some (st, en) ∧ st ≥ en)) ∨
+    (∃ st en, rangeCheck r len = some (st, en) ∧ DtoSpec.rfcInterval (toByteRange r) len = some (st, en) ∧
+      st < en ∧ (∀ f l, r = .int f l → st = f) ∧ (∀ n, r = .suffix n → st = len - n)) :=
+  rangeCheck_spec r len h
+
+/-- head_object: length and metadata of the most recent write. Partial — answers agree up to the ETag, which the backend
+    never returns (fs:head-without-etag); excluded: a missing key in an existing bucket (fs:head-missing-key-code) -/
+theorem C18_head_refines_partial (H : Hashes) (dl : Nat) {s : State} (hi : Inv s) {b k : Bytes} (hg : HeadOk s b k) :
+    (step H dl s (.headObject b k)).2.core = (StoreSpec.step H (abs s) (.headObject b k)).2.core ∧
+    abs (step H dl s (.headObject b k)).1 = (StoreSpec.step H (abs s) (.headObject b k)).1 ∧
+    Inv (step H dl s (.headObject b k)).1 := head_refines H dl hi hg
+
+/-- delete_object: deleted objects are gone. Partial — excluded: deleting a key that does not exist
+    (fs:delete-missing-key-error), a missing bucket -/
+theorem C18_delete_refines_partial (H : Hashes) (dl : Nat) {s : State} (hi : Inv s) {b k : Bytes} (hg : DeleteOk s b k) :
+    (step H dl s (.deleteObject b k)).2 = (StoreSpec.step H (abs s) (.deleteObject b k)).2 ∧
+    abs (step H dl s (.deleteObject b k)).1 = (StoreSpec.step H (abs s) (.deleteObject b k)).1 ∧
+    Inv (step H dl s (.deleteObject b k)).1 := delete_refines H dl hi hg
+
+/-- copy_object: the destination becomes the source's content, metadata and checksums. Partial — excluded: copy onto
+    itself (fs:copy-onto-itself-destroys-object), a destination metadata file the source lacks
+    (fs:stale-metadata-after-copy), differing recorded checksums (fs:stale-checksum-after-copy), missing source bucket -/
+theorem C18_copy_refines_partial (H : Hashes) (dl : Nat) {s : State} (hi : Inv s) {sb sk db dk : Bytes}
+    (hg : CopyOk s sb sk db dk) :
+    (step H dl s (.copyObject sb sk db dk)).2 = (StoreSpec.step H (abs s) (.copyObject sb sk db dk)).2 ∧
+    abs (step H dl s (.copyObject sb sk db dk)).1 = (StoreSpec.step H (abs s) (.copyObject sb sk db dk)).1 ∧
+    Inv (step H dl s (.copyObject sb sk db dk)).1 := copy_refines H dl hi hg
+
+/-! ## listings -/
+
+/-- list_objects_v2. Partial — excluded: any delimiter (fs:list-delimiter-not-rolled-up, fs:list-delimiter-rewrites-keys), a
+    prefix that reads differently as a path (fs:list-prefix-as-path), `max-keys` below the number of keys
+    (fs:list-ignores-max-keys) -/
+theorem C18_list_v2_refines_partial (H : Hashes) (dl : Nat) {s : State} (hi : Inv s) {b : Bytes}
+    {pfx delim after : Option Bytes} {maxKeys : Option Int} (hg : ListOk s b pfx delim maxKeys) :
+    (step H dl s (.listObjectsV2 b pfx delim after maxKeys)).2 =
+      (StoreSpec.step H (abs s) (.listObjectsV2 b pfx delim after maxKeys)).2 ∧
+    abs (step H dl s (.listObjectsV2 b pfx delim after maxKeys)).1 =
+      (StoreSpec.step H (abs s) (.listObjectsV2 b pfx delim after maxKeys)).1 ∧
+    Inv (step H dl s (.listObjectsV2 b pfx delim after maxKeys)).1 := listV2_refines H dl hi hg
+
+/-- list_objects (v1, `marker`): as v2 -/
+theorem C18_list_v1_refines_partial (H : Hashes) (dl : Nat) {s : State} (hi : Inv s) {b : Bytes}
+    {pfx delim marker : Option Bytes} {maxKeys : Option Int} (hg : ListOk s b pfx delim maxKeys) :
+    (step H dl s (.listObjects b pfx delim marker maxKeys)).2 =
+      (StoreSpec.step H (abs s) (.listObjects b pfx delim marker maxKeys)).2 ∧
+    abs (step H dl s (.listObjects b pfx delim marker maxKeys)).1 =
+      (StoreSpec.step H (abs s) (.listObjects b pfx delim marker maxKeys)).1 ∧
+    Inv (step H dl s (.listObjects b pfx delim marker maxKeys)).1 := listV1_refines H dl hi hg
+
+/-- what the store's listing is (so, by the two theorems above, the backend's): exactly the keys of the bucket that start
+    with the prefix and come after the marker, each once with its size, in strictly ascending byte order -/
+theorem C18_listing_exact (objs : List (Bytes × Obj)) (pfx after : Option Bytes) (maxKeys : Option Int)
+    (hnd : keysNodup objs) (hlim : objs.length ≤ listLimit maxKeys) :
+    ∃ items, listing objs pfx none after maxKeys = .listed items items.length false [] ∧
+      items.Pairwise (fun x y => bytesLt x.1 y.1 = true) ∧
+      ∀ k n, (k, n) ∈ items ↔
+        (∃ o, alLookup k objs = some o ∧ n = o.content.length) ∧ (pfx.getD []).isPrefixOf k = true ∧
+          (∀ m, after = some m → bytesLt m k = true) := listing_exact objs pfx after maxKeys hnd hlim
+
+/-! ## multipart uploads -/
+
+/-- create_multipart_upload. Partial — excluded: missing bucket or refused key (fs:create-upload-not-validated) -/
+theorem C18_create_upload_refines_partial (H : Hashes) (dl : Nat) {s : State} (hi : Inv s) {who : Who} {b k : Bytes}
+    {md : Option Meta} (hg : CreateUploadOk s b k) :
+    (step H dl s (.createMultipartUpload who b k md)).2 =
+      (StoreSpec.step H (abs s) (.createMultipartUpload who b k md)).2 ∧
+    abs (step H dl s (.createMultipartUpload who b k md)).1 =
+      (StoreSpec.step H (abs s) (.createMultipartUpload who b k md)).1 ∧
+    Inv (step H dl s (.createMultipartUpload who b k md)).1 := createUpload_refines H dl hi hg
+
+/-- upload_part: only the creating identity may add a part (`AccessDenied` otherwise). Partial — excluded: part numbers
+    below 1 (fs:part-number-not-validated), unknown uploads (fs:unknown-upload-code), another key than the upload's
+    (fs:upload-not-bound-to-key) -/
+theorem C18_upload_part_refines_partial (H : Hashes) (dl : Nat) {s : State} (hi : Inv s) {who : Who} {b k : Bytes}
+    {u : UploadRef} {n : Int} {c : Bytes} (hg : UploadPartOk s b k u n) :
+    (step H dl s (.uploadPart who b k u n c)).2 = (StoreSpec.step H (abs s) (.uploadPart who b k u n c)).2 ∧
+    abs (step H dl s (.uploadPart who b k u n c)).1 = (StoreSpec.step H (abs s) (.uploadPart who b k u n c)).1 ∧
+    Inv (step H dl s (.uploadPart who b k u n c)).1 := uploadPart_refines H dl hi hg
+
+/-- upload_part_copy of a whole source object. Partial — not covered: requests with `x-amz-copy-source-range`
+    (fs:part-copy-range-unchecked); excluded as for upload_part -/
+theorem C18_upload_part_copy_refines_partial (H : Hashes) (dl : Nat) {s : State} (hi : Inv s) {who : Who} {b k : Bytes}
+    {u : UploadRef} {n : Int} {sb sk : Bytes} {range : Option Bytes} (hg : UploadPartCopyOk s b k u n sb sk range) :
+    (step H dl s (.uploadPartCopy who b k u n sb sk range)).2 =
+      (StoreSpec.step H (abs s) (.uploadPartCopy who b k u n sb sk range)).2 ∧
+    abs (step H dl s (.uploadPartCopy who b k u n sb sk range)).1 =
+      (StoreSpec.step H (abs s) (.uploadPartCopy who b k u n sb sk range)).1 ∧
+    Inv (step H dl s (.uploadPartCopy who b k u n sb sk range)).1 := uploadPartCopy_refines H dl hi hg
+
+/-- list_parts (part numbers and sizes, ascending). Partial — excluded: unknown uploads (fs:list-parts-unknown-upload); the
+    order in which the real code returns parts is not part of the model (fs:list-parts-unordered) -/
+theorem C18_list_parts_refines_partial (H : Hashes) (dl : Nat) {s : State} (hi : Inv s) {who : Who} {b k : Bytes}
+    {u : UploadRef} (hg : ListPartsOk s b k u) :
+    (step H dl s (.listParts who b k u)).2 = (StoreSpec.step H (abs s) (.listParts who b k u)).2 ∧
+    abs (step H dl s (.listParts who b k u)).1 = (StoreSpec.step H (abs s) (.listParts who b k u)).1 ∧
+    Inv (step H dl s (.listParts who b k u)).1 := listParts_refines H dl hi hg
+
+/-- complete_multipart_upload: the object becomes the concatenation of the listed parts in part order with the upload's
+    metadata, the upload is gone; an identity other than the creator gets `AccessDenied` and changes nothing. Partial —
+    excluded: every failing complete by the owner (the upload is consumed: fs:failed-complete-consumes-upload), part lists
+    other than 1..m (fs:complete-requires-consecutive-parts, fs:complete-part-list-validation), the stale side-file
+    cases (fs:stale-metadata-after-complete, fs:stale-checksum-after-complete), fs:complete-into-missing-bucket -/
+theorem C18_complete_refines_partial (H : Hashes) (dl : Nat) {s : State} (hi : Inv s) {who : Who} {b k : Bytes}
+    {u : UploadRef} {parts : Option (List (Option Int))} (hg : CompleteOk s who b k u parts) :
+    (step H dl s (.completeMultipartUpload who b k u parts)).2 =
+      (StoreSpec.step H (abs s) (.completeMultipartUpload who b k u parts)).2 ∧
+    abs (step H dl s (.completeMultipartUpload who b k u parts)).1 =
+      (StoreSpec.step H (abs s) (.completeMultipartUpload who b k u parts)).1 ∧
+    Inv (step H dl s (.completeMultipartUpload who b k u parts)).1 := complete_refines H dl hi hg
+
+/-- the loop of complete_multipart_upload over parts `1..m` that exist with the minimum size writes their concatenation
+    in part order and removes only part files of that upload -/
+theorem C18_complete_concatenates (id total : Nat) (l : List (Option Int)) (cnt : Nat) (acc : Bytes)
+    (parts : List ((Nat × Int) × Bytes)) (cs : List Bytes)
+    (hc : ConsecFrom cnt l) (ht : total = cnt + l.length) (hp : partsOf parts id l = some cs) (hs : sizesOk cs = true) :
+    ∃ ps, completeLoop id total l cnt acc parts = (ps, .ok (acc ++ cs.flatten)) ∧ Erased id parts ps :=
+  completeLoop_ok id total l cnt acc parts cs hc ht hp hs
+
+/-- abort_multipart_upload: only by the creator; the upload is gone. Partial — excluded: unknown uploads, other keys -/
+theorem C18_abort_refines_partial (H : Hashes) (dl : Nat) {s : State} (hi : Inv s) {who : Who} {b k : Bytes}
+    {u : UploadRef} (hg : AbortOk s b k u) :
+    (step H dl s (.abortMultipartUpload who b k u)).2 = (StoreSpec.step H (abs s) (.abortMultipartUpload who b k u)).2 ∧
+    abs (step H dl s (.abortMultipartUpload who b k u)).1 =
+      (StoreSpec.step H (abs s) (.abortMultipartUpload who b k u)).1 ∧
+    Inv (step H dl s (.abortMultipartUpload who b k u)).1 := abort_refines H dl hi hg
+
+/-! ## one request, whole histories -/
+
+/-- any request in `Good` (the per-operation predicates; `delete_objects` is not covered) -/
+theorem C18_step_refines_partial (H : Hashes) (dl : Nat) {s : State} (hi : Inv s) {op : Op} (hg : Good s op) :
+    (step H dl s op).2.core = (StoreSpec.step H (abs s) op).2.core ∧
+    abs (step H dl s op).1 = (StoreSpec.step H (abs s) op).1 ∧ Inv (step H dl s op).1 :=
+  step_refines H dl hi hg
+
+/-- all operation lists, by induction: if every request meets `Good` in the state in which it arrives, the backend's
+    answers are the store's (up to the ETag of head_object), its final state abstracts to the store's final state, and the
+    invariant holds throughout -/
+theorem C18_history_refines_partial (H : Hashes) (dl : Nat) (ops : List Op) (s : State) (hi : Inv s)
+    (hg : GoodRun H dl s ops) :
+    (run H dl s ops).2.map Resp.core = (StoreSpec.run H (abs s) ops).2.map Resp.core ∧
+    abs (run H dl s ops).1 = (StoreSpec.run H (abs s) ops).1 ∧ Inv (run H dl s ops).1 :=
+  history_refines H dl ops s hi hg
+
+/-- histories from the empty directory against the empty store -/
+theorem C18_history_from_empty_partial (H : Hashes) (dl : Nat) (ops : List Op) (hg : GoodRun H dl {} ops) :
+    (run H dl {} ops).2.map Resp.core = (StoreSpec.run H {} ops).2.map Resp.core ∧
+    abs (run H dl {} ops).1 = (StoreSpec.run H {} ops).1 :=
+  let h := history_refines H dl ops {} inv_empty hg
+  ⟨h.1, h.2.1⟩
 
 end S3V.C18
